@@ -10,6 +10,8 @@ fee collection pays the owed amounts to accounts of the pool's mints and resets 
 Traded event reports the amounts moved.
 Also decided: the v2 transfer-fee wrapping keeps the charged input on the input mint (C16.R1 instances
 re-decided here);
+Also decided: update_after_swap performs all its stores on every path; compute_swap and the loop contain no narrowing
+integer cast (a total fee rate above u16 reaches the step whole).
 Not decided: the identity summed over multi-step swaps with numbers."""
 from analysis import cfg, atoms as A, preach, writes, accounts as ACC
 from analysis.ir import callee_path, AnchorMissing
